@@ -4,6 +4,10 @@
      implementation is left to settle; the model runs its workers to quiescence ([settle]).  Compared
      per operation: the return value (Add accepted / Cancel(id)), Queue.Size(), the set of callbacks
      started so far and the set finished so far.
+   CWin: a schedule fully controlled through the yield points of runtime/timed (one worker held at a point, client
+     operations completed meanwhile), given as the exact label sequence of the model up to the release of the worker;
+     the model then lets the clock pass every due time and runs the worker to quiescence.  Compared: the values
+     returned by Cancel(id) and the set of callbacks started (= values returned by Poll for a plain Queue).
    CHist: a history recorded from a timing run (monotonic stamps in microseconds) with the verdicts of
      the Go-side oracle; the executable predicates of Model.v are re-evaluated on it. *)
 From Coq Require Import NArith List Bool Arith.
@@ -21,13 +25,15 @@ Definition obs := (option bool * nat * list nat * list nat)%type.
 
 Inductive case :=
 | CScript (nworkers maxsize : nat) (ops : list sop) (o : list obs)
-| CHist (band : N) (l : list ev) (verdict : list bool).
+| CHist (band : N) (l : list ev) (verdict : list bool)
+| CWin (ls : list label) (rets : list bool) (started_ : list nat).
 
 (* can worker w take a step now?  A running callback that blocks returns only after SRelease. *)
 Definition w_enabled (s : st) (blocked : list nat) (ws : wst) : bool :=
   match ws with
   | WIdle | WPopped _ | WPopped2 _ | WDeliv _ => true
   | WParked e | WParked2 e => is_due s e
+  | WChosen e => is_due s e || (shut s && fignore s)
   | WRun e => negb (memb (eid e) blocked)
   | WWait | WExit => false
   end.
@@ -97,6 +103,10 @@ Fixpoint boolsl_eqb (a b : list bool) : bool :=
 (* the scenario clock stands at T0; "past" times are below, "future" times above *)
 Definition T0 : N := 1000000%N.
 
+(* the values returned by Cancel(id), oldest first *)
+Definition tcancel_rets (l : list ev) : list bool :=
+  rev (flat_map (fun x => match x with ETCancel _ r => [r] | _ => [] end) l).
+
 Definition judge (band : N) (l : list ev) : list bool :=
   [never_early l; at_most_once l; cancel_honoured band l; all_delivered l].
 
@@ -105,6 +115,10 @@ Definition agree (c : case) : bool :=
   | CScript nw mx ops o =>
       obsl_eqb (run_script (set_now (init nw mx IfOwn true true) T0) [] ops) o
   | CHist band l v => boolsl_eqb (judge band l) v
+  | CWin ls rets st_ =>
+      let s1 := run (set_now (init 1 0 IfOwn true true) T0) ls in
+      let s2 := settle FUEL [] (step s1 (LTick 1000000000%N)) in
+      boolsl_eqb (tcancel_rets (log s1)) rets && listn_eqb (sort (started (log s2))) st_
   end.
 
 Fixpoint mismatches_from (i : nat) (cs : list case) : list nat :=
